@@ -1,3 +1,139 @@
-/- C12 — property theorems (stub: the property is not claimed yet). -/
+/-
+  C12 — Formatter layout guarantees: indentation, minification, slim tags, stability.
+
+  Property theorems only (model: AHP/Model/Format.lean; lemmas: AHP/Lemmas/Format.lean, Squeeze.lean).
+  Quantification as in C11: every token sequence, every configuration; hypothesis: no element is named like the
+  invisible wrapper.
+-/
+import AHP.Lemmas.Format
 namespace AHP.C12
+open AHP AHP.Fmt
+
+/-! #### C12a — indentation -/
+
+/-- **C12a (tree level).**  In the tree the formatter serialises, every element outside pre/code carries
+    `_indent = "\n" ++ indent^depth`, `depth` being its number of proper ancestors other than the invisible wrapper
+    *recomputed from the finished tree* (`LayoutOK`), every element below pre/code carries none, and the mini classes
+    give none at all — whatever pushes, explicit pops and implicit pops the token sequence caused. -/
+theorem indentation_law (cfg : Cfg) (toks : List Tok) (h : NoWrapperStart toks) (s : St) (r : Node)
+    (hs : feed cfg toks = .ok s) (hr : s.root = some r) : LayoutOK cfg 0 false r := by
+  rw [feed_dec cfg toks h] at hs
+  cases hp : Plain.feed toks with
+  | error e => simp [hp, mapOk] at hs
+  | ok ps =>
+    simp only [hp, mapOk, Except.ok.injEq] at hs
+    rw [← hs, root_dec] at hr
+    cases hpr : ps.root with
+    | none => simp [hpr] at hr
+    | some r0 =>
+      simp only [hpr, Option.map_some, Option.some.injEq] at hr
+      rw [← hr]
+      exact layout_decorate cfg ⟨0, 0⟩ [] r0
+
+/-- the counters the formatter is left with are those of the elements still open: `currentIndentLevel` = number
+    of open elements other than the wrapper, `inPreformatted` = number of open pre/code elements -/
+theorem counters_are_stack_functions (cfg : Cfg) (toks : List Tok) (h : NoWrapperStart toks) (s : St)
+    (hs : feed cfg toks = .ok s) :
+    ∃ ps, Plain.feed toks = .ok ps ∧ s.level = ((ctxOf ps.stack).level : Int) ∧ s.inPre = ((ctxOf ps.stack).inPre : Int)
+      ∧ s.stack.length = ps.stack.length := by
+  rw [feed_dec cfg toks h] at hs
+  cases hp : Plain.feed toks with
+  | error e => simp [hp, mapOk] at hs
+  | ok ps =>
+    simp only [hp, mapOk, Except.ok.injEq] at hs
+    exact ⟨ps, rfl, by rw [← hs]; rfl, by rw [← hs]; rfl, by rw [← hs]; simp [decSt]⟩
+
+/-- In the output text the `_indent` is what precedes the start tag … -/
+theorem start_tag_after_indent (k : Kind) (n : Str) (st : AStore) (sc : Bool) (ind : Str) :
+    ∃ rest, startTag k n st sc ind = ind ++ rest ∧ rest.head? = some '<' := startTag_prefix k n st sc ind
+
+/-- … and the end tag of an element that is not self-closing, unless the element is pre/code or is script/style whose
+    content already ends with exactly that line break and indentation. -/
+theorem end_tag_after_indent (n ind : Str) (kids : List Node) (hpre : isPre n = false)
+    (hraw : isPreserve n = true → lastTextEndsWith ind kids = false) :
+    endTag n false ind kids = ind ++ str "</" ++ n ++ str ">" := by
+  rcases endTag_cases n ind kids with h | ⟨_, h | h⟩
+  · exact h
+  · rw [hpre] at h; cases h
+  · rw [hraw h.1] at h; cases h.2
+
+/-! #### C12c — slim output = normal output without the space before `>` -/
+
+/-- C12c on one start tag -/
+theorem slim_start_tag (ssc : Bool) (n : Str) (st : AStore) (sc : Bool) (ind : Str) :
+    startTag .normal n st sc ind = ind ++ ('<' :: n ++ attrString st) ++ (if sc then str " />" else str " >")
+    ∧ startTag (.slim ssc) n st sc ind
+        = ind ++ ('<' :: n ++ attrString st) ++ (if sc then (if ssc then str "/>" else str " />") else str ">") :=
+  ⟨startTag_normal n st sc ind, startTag_slim ssc n st sc ind⟩
+
+/-- **C12c (document level).**  For the same tokens, indent unit and mini flag, the slim class fails exactly when the
+    normal class fails, and otherwise its output is the normal output piece by piece: text blocks, end tags and doctype
+    line identical, every start-tag piece with the space before `>` removed (before `/>` only with slimSelfClosing) —
+    in start tags only. -/
+theorem slim_output (cfg : Cfg) (hk : cfg.kind = .normal) (ssc : Bool) (toks : List Tok) (h : NoWrapperStart toks) :
+    (match feed cfg toks with
+     | .ok fn => ∃ fs, feed { cfg with kind := .slim ssc } toks = .ok fs ∧ fs.doctype = fn.doctype
+          ∧ (fn.root = none → fs.root = none)
+          ∧ ∀ r, fn.root = some r → ∃ r', fs.root = some r'
+              ∧ docHTML fn.doctype fn.root = .ok (flat (docPieces fn.doctype r))
+              ∧ docHTML fs.doctype fs.root = .ok (flat ((docPieces fn.doctype r).map (slimPiece ssc)))
+     | .error e => feed { cfg with kind := .slim ssc } toks = .error e) := by
+  rw [feed_dec cfg toks h, feed_dec { cfg with kind := .slim ssc } toks h]
+  cases hp : Plain.feed toks with
+  | error e => simp [mapOk]
+  | ok ps =>
+    simp only [mapOk]
+    refine ⟨_, rfl, rfl, ?_, ?_⟩
+    · intro hn
+      rw [root_dec] at hn ⊢
+      cases hr : ps.root with
+      | none => rfl
+      | some r0 => simp [hr] at hn
+    · intro r hr
+      rw [root_dec] at hr
+      cases hpr : ps.root with
+      | none => simp [hpr] at hr
+      | some r0 =>
+        simp only [hpr, Option.map_some, Option.some.injEq] at hr
+        have hcfg : cfg = { cfg with kind := .normal } := by cases cfg; simp_all
+        have e1 : r = setKind .normal (dec0 cfg r0) := by
+          rw [← hr]; unfold dec0
+          conv => lhs; rw [hcfg]
+          exact decorate_setKind cfg .normal _ _ r0
+        have e2 : dec0 { cfg with kind := .slim ssc } r0 = setKind (.slim ssc) (dec0 cfg r0) :=
+          decorate_setKind cfg (.slim ssc) _ _ r0
+        refine ⟨setKind (.slim ssc) (dec0 cfg r0), by rw [root_dec, hpr, Option.map_some, e2], ?_, ?_⟩
+        · rw [root_dec, hpr, Option.map_some, hr]; exact docHTML_eq_flat _ _
+        · rw [root_dec, hpr, Option.map_some, e2, docHTML_eq_flat, e1]
+          show Except.ok (flat (docPieces ps.doctype _)) = _
+          rw [docPieces_slim]
+          rfl
+
+/-- what the surgery does to the two shapes a start tag can have -/
+theorem slim_surgery (ssc : Bool) (x : Str) :
+    slimSurgery ssc (x ++ str " >") = x ++ str ">"
+    ∧ slimSurgery ssc (x ++ str " />") = x ++ (if ssc then str "/>" else str " />") :=
+  ⟨slimSurgery_open ssc x, slimSurgery_selfclosed ssc x⟩
+
+/-! #### C12b — mini output carries no indentation -/
+
+/-- the mini classes give no element an `_indent` (special case of the indentation law, spelled out) -/
+theorem mini_no_indent (cfg : Cfg) (hm : cfg.mini = true) (c : Ctx) : indentAt cfg c = [] := by
+  unfold indentAt getIndent
+  by_cases h0 : c.inPre = 0 <;> simp [h0, hm]
+
+/-! #### non-vacuity -/
+
+def sampleToks : List Tok :=
+  [.start (str "ul") [], .start (str "li") [], .data (str "a"), .start (str "li") [], .data (str "b\n"),
+   .startend (str "pre") [], .start (str "br") [], .end_ (str "ul"), .data (str "\n")]
+
+example : NoWrapperStart sampleToks := by decide
+/-- implicit closes (`li`, `li`) are dedented, the self-closed `pre` does not switch indentation off -/
+example : okIs (format (mkCfg .pretty (.str (str "  ")) false) sampleToks)
+    "\n<ul >\n  <li >a\n    <li >b\n      <pre />\n      <br />\n    </li>\n  </li>\n</ul>" = true := by decide +kernel
+example : okIs (format (mkCfg .slim (.str (str "  ")) true) sampleToks)
+    "\n<ul>\n  <li>a\n    <li>b\n      <pre/>\n      <br/>\n    </li>\n  </li>\n</ul>" = true := by decide +kernel
+example : okIs (format (mkCfg .mini .dflt false) sampleToks) "<ul ><li >a<li >b<pre /><br /></li></li></ul>" = true := by decide +kernel
+
 end AHP.C12
